@@ -49,6 +49,8 @@ mod connection_control;
 mod header_ex;
 pub(crate) mod header_session;
 mod shrex;
+#[cfg(eigerco_lumina_verif)]
+pub(crate) use shrex::pool_tracker_verif_hooks as shrex_pool_tracker_verif_hooks;
 pub(crate) mod shwap;
 mod swarm;
 mod swarm_manager;
